@@ -37,6 +37,7 @@ def run(ctx):
 
     if ctx.replay:
         rp = json.load(open(ctx.replay))["replay"]
+        ctx.tlc_expect_ok("MC_HydFile", cfg_text=hc.mc_cfg(2, 3, maxcrash=1), workers=8, deadlock=False, name="mc-strict-small", timeout=3600)
         cfgs = [dict(seed=1, mode="crash", level="both", maxall=rp.get("config", {}).get("maxall", 16), replay=rp["history"], idbase=0)]
     else:
         # 1. the strict design satisfies the property for every cut (exhaustive)
